@@ -141,6 +141,7 @@ impl<'a> Gen<'a> {
         let mut has_forward = false;
         for _ in 0..len {
             match self.rng.below(if depth >= 3 { 4 } else { 9 }) {
+                8 if self.plain_only => out.push(self.probe(false)),
                 8 => {
                     // <reuse>: its attributes are locals of the copy; one template holds a forward reference,
                     // so the whole instantiation (and what encloses it) fails first and is attempted again
@@ -225,10 +226,11 @@ fn reads(n: &X, acc: &mut Vec<String>) {
 fn gen_doc(rng: &mut Rng, forward: bool, plain_only: bool) -> Vec<X> {
     let mut g = Gen { rng, n_probe: 0, forward, plain_only, frozen: vec![] };
     let mut top: Vec<X> = if plain_only { vec![] } else { vec![X::leaf("var", &[("a", "A0"), ("b", "B0"), ("c", "C0")])] };
-    top.push(X::node("specs", &[], vec![
+    // (not in the empty-scope mode: there the document must begin without any scope having existed)
+    if !plain_only { top.push(X::node("specs", &[], vec![
         X::node("g", &[("id", "tplA")], vec![X::leaf("rect", &[("wh", "1"), ("data-p", "$a|$b|${c}")])]),
         X::node("g", &[("id", "tplF")], vec![X::leaf("rect", &[("wh", "1"), ("data-p", "<$a>")]), X::leaf("rect", &[("wh", "1"), ("xy", "#z|h 1"), ("data-p", "$b-$c")])]),
-    ]));
+    ])); }
     let units = 3 + g.rng.below(5);
     for _ in 0..units {
         // build one top-level unit; if it contains a forward reference it will be retried as a whole:
